@@ -59,12 +59,18 @@ def gen_cases(rng, tier):
                         if zero and zero.startswith("cancel") and not noise:
                             zero = zero[-1]
                         cases.append({"kind": "call", "cls": cls, "npol": npol, "n": n, "noise": noise, "dom": dom,
-                                      "shift": shift, "dtype": dtype, "gv": g, "seed": seed, "amp": amp, "namp": namp, "zero": zero})
+                                      "shift": shift, "dtype": dtype, "gv": g, "seed": seed, "amp": amp, "namp": namp, "zero": zero,
+                                      "shiftkind": rng.choice(["py", "py", "np", "int", "cmp"])})
     for n in lens:
         for shift in (False, True):
             for g in ([rng.choice(gvs), rng.choice(gvs), rng.choice(gvs[-4:])] if tier == "quick" else gvs):
                 cases.append({"kind": "waxis", "n": n, "shift": shift, "gv": g, "cls": "e", "npol": 1, "noise": False,
-                              "dtype": "real", "seed": 1, "dom": "-"})
+                              "dtype": "real", "seed": 1, "dom": "-", "shiftkind": rng.choice(["py", "py", "np", "int", "cmp"])})
+    # signal length exactly N*sps of the grid in force (gv.w exists with that many points)
+    for g in [{"sps": 8, "R": 10e9, "N": 16}, {"sps": 4, "R": 1e9, "N": 2}, {"sps": 16, "R": 1e9, "N": 4}]:
+        for shift in (False, True):
+            cases.append({"kind": "waxis", "n": g["sps"] * g["N"], "shift": shift, "gv": g, "cls": rng.choice(["e", "o"]), "npol": 1,
+                          "noise": False, "dtype": "real", "seed": 1, "dom": "-", "shiftkind": rng.choice(["py", "np", "int"])})
     # long records (longer than any plausible internal block size): power() only — the O(n^2) DFT model is not run on them
     for n, cls, npol in ([(65537, "e", 1), (100003, "o", 2)] if tier == "quick" else
                          [(65536, "e", 1), (65537, "e", 1), (70000, "o", 1), (100003, "o", 2), (131072, "o", 2), (208953, "e", 1)]):
@@ -134,6 +140,14 @@ def _obj(case, s, nz):
     return optical_signal(s, nz, n_pol=case["npol"])
 
 
+def _shift_value(case):
+    """the VALUE handed over as `shift`: the statement says shift=True/False; numpy booleans, 0/1 and the results of numpy
+    comparisons are the same truth values and are what callers routinely pass"""
+    k = case.get("shiftkind", "py")
+    t = bool(case["shift"])
+    return {"py": t, "np": np.bool_(t), "int": int(t), "cmp": (np.arange(2) > 0)[1 if t else 0]}[k]
+
+
 def run_impl(case):
     from opticomlib.typing import gv
     res = {}
@@ -147,8 +161,21 @@ def run_impl(case):
             x0 = (np.array(x.signal, copy=True), None if x.noise is None else np.array(x.noise, copy=True))   # operand before any call
             with time_limit(30):
                 if case["kind"] == "waxis":
-                    w = x.w(case["shift"])
-                    res.update(status="ok", w=[float(v) for v in w], fs=float(gv.fs))
+                    sv = _shift_value(case)
+                    w = x.w(sv)
+                    w_first = np.array(w, dtype=float, copy=True)
+                    res.update(status="ok", w=[float(v) for v in w_first], fs=float(gv.fs))
+                    # the returned axis is the caller's: it must not be a view of gv's stored grid, and editing it in place
+                    # must not change what the next call returns
+                    gvw = getattr(gv, "w", None)
+                    res["aliases_gv"] = bool(isinstance(gvw, np.ndarray) and np.shares_memory(w, gvw))
+                    try:
+                        w *= 0.5
+                        w += 1.0
+                    except Exception:  # noqa  (a read-only result cannot be edited: nothing to check)
+                        pass
+                    w2 = x.w(shift=sv)
+                    res["w_again_same"] = bool(np.array_equal(np.asarray(w2, dtype=float), w_first))
                 elif case["kind"] == "longpower":
                     tot = x0[0] if x0[1] is None else x0[0] + x0[1]
                     res.update(status="ok", n=len(x), power=[float(v) for v in np.atleast_1d(x.power())],
@@ -158,7 +185,10 @@ def run_impl(case):
                                want_sig=[float(v) for v in np.atleast_1d(np.mean(np.abs(x0[0]) ** 2, axis=-1))],
                                want_noise=[float(v) for v in np.atleast_1d(np.mean(np.abs(x0[1]) ** 2, axis=-1))] if x0[1] is not None else None)
                 else:
-                    y = x(case["dom"], case["shift"])
+                    sv = _shift_value(case)
+                    y = x(case["dom"], sv)
+                    yk = x(domain=case["dom"], shift=sv)              # keyword spelling of the same request
+                    res["keyword_same"] = bool(np.array_equal(yk.signal, y.signal))
                     res.update(status="ok", cls=type(y).__name__, npol=getattr(y, "n_pol", None), n=len(y),
                                sig=[[[z.real, z.imag] for z in row] for row in _rows(y.signal)],
                                noise=None if y.noise is None else [[[z.real, z.imag] for z in row] for row in _rows(y.noise)],
@@ -166,7 +196,7 @@ def run_impl(case):
                                in_noise=None if x0[1] is None else [[[z.real, z.imag] for z in row] for row in _rows(x0[1])],
                                power=[float(v) for v in np.atleast_1d(x.power())],
                                power_sig=[float(v) for v in np.atleast_1d(x.power('signal'))])
-                    y2 = x(case["dom"], case["shift"])        # the same request again on the same object
+                    y2 = x(case["dom"], sv)        # the same request again on the same object
                     res["repeat_same"] = bool(np.array_equal(y2.signal, y.signal) and
                                               ((y2.noise is None) == (y.noise is None)) and
                                               (y.noise is None or np.array_equal(y2.noise, y.noise)))
@@ -307,6 +337,10 @@ def oracle(case, res):
         w = np.array(res["w"])
         if w.shape != ref.shape or not (np.max(np.abs(w - ref)) <= eps * max(1.0, np.max(np.abs(ref)))):
             v.append(("C02:w-axis", f"w(shift={case['shift']}) for n={n}, fs={fs} differs from 2*pi*fftfreq*fs"))
+        if res.get("aliases_gv"):
+            v.append(("C02:w-aliases-gv", f"w(shift={case['shift']}) returned a view of gv.w (n={n}): editing the returned axis edits the global grid"))
+        if res.get("w_again_same") is False:
+            v.append(("C02:w-not-fresh", f"after the returned axis was edited in place the next w() call returned different values (n={n})"))
         if not (abs(res["fs"] - fs) <= 1e-9 * fs):
             v.append(("C02:fs", f"gv.fs={res['fs']} but the configured sampling rate is {fs}"))
         return v
@@ -315,6 +349,8 @@ def oracle(case, res):
         v.append(("C02:shape", f"result {res['cls']}/n_pol={res['npol']}/len={res['n']} for input {want_cls}/{case['npol']}/{n}"))
     if (res["noise"] is None) != (not case["noise"]):
         v.append(("C02:noise-presence", "noise component presence changed by the transform"))
+    if res.get("keyword_same") is False:
+        v.append(("C02:positional", f"x({case['dom']!r}, shift) and x(domain=…, shift=…) differ (n={n})"))
     if not res.get("repeat_same", True):
         v.append(("C02:repeat", f"the same transform request on the same object gave a different result the second time (n={n})"))
     if not res.get("in_unchanged", True):
@@ -371,6 +407,7 @@ def features(case, res):
         f.append("odd-shifted")
     if case.get("zero"):
         f.append("dark=" + case["zero"])
+    f.append("shift-as=" + case.get("shiftkind", "py"))
     return f
 
 
